@@ -391,7 +391,7 @@ def minimise(case, violation):
 
 
 def selftest_cases(n):
-    return [gen_case(120_000 + i) for i in range(n - n // 5)] + [{"mode": "bad", "seed": 121_000 + i} for i in range(n // 5)]
+    return [gen_case(120_000 + i) for i in range(n - n // 5)] + [{"mode": "bad", "seed": 121_000 + i} for i in range(n // 5)] + [gen_stall_case(122_000 + i) for i in range(n // 10)]
 
 
 def main(argv=None):
